@@ -564,8 +564,10 @@ def replay(c, rp):
     recorded failing inputs"""
     from .translate import gen_update_bounds
     from .translate_c04 import gen_hard_constraint
+    from .translate_c02 import gen_bookkeeping
 
-    c.prove(extra=gen_update_bounds(c) + gen_hard_constraint(c))  # + kernels translated from the source on every run
+    # + kernels and the store bookkeeping of the priority loop, translated from the source on every run
+    c.prove(extra=gen_update_bounds(c) + gen_hard_constraint(c) + gen_bookkeeping(c))
     for f in rp.get("failures", []) + rp.get("correspondence_disagreements", []):
         print("recorded:", f["what"])
     run_corpus(c)
@@ -598,8 +600,10 @@ def run(c):
     ]
     from .translate import gen_update_bounds
     from .translate_c04 import gen_hard_constraint
+    from .translate_c02 import gen_bookkeeping
 
-    c.prove(extra=gen_update_bounds(c) + gen_hard_constraint(c))  # + kernels translated from the source on every run
+    # + kernels and the store bookkeeping of the priority loop, translated from the source on every run
+    c.prove(extra=gen_update_bounds(c) + gen_hard_constraint(c) + gen_bookkeeping(c))
     run_corpus(c)
     C4.stream_update_bounds(c)
     stream_main(c, c.n(200, 3000))
